@@ -229,12 +229,16 @@ fn local_name(n: &Node, style: Option<Style>, ident: &str, name_override: &Optio
 
 /// how a flattened child is held, decided by the field's value and the child's close mode: 0 =
 /// bare, 1 = `Option<Child>` holding Some, 2 = `Option<Child>` holding None (contributes nothing),
-/// 4 = `Arc<Child>` (needs a child closeable by reference)
+/// 4 = `Arc<Child>` (needs a child closeable by reference), 5 = `Cow<'static, ChildEntry>` holding
+/// the child's closed entry
 pub fn flatten_wrap(val: u32, child: &Node) -> u8 {
     match val % 7 {
         0 => 1,
         1 => 2,
         2 if child.mode == Mode::Subfield => 4,
+        // the child's CLOSED entry held in a Cow (a pre-closed, shared context entry); a Cow is
+        // closed by value only, i.e. the parent must be - which an owned child guarantees
+        3 if child.mode == Mode::SubfieldOwned => 5,
         _ => 0,
     }
 }
@@ -437,7 +441,7 @@ fn field_decl(f: &Field, defs: &mut Vec<String>, named: bool) -> String {
                 Some(u) => format!("#[metrics(unit = metrique::unit::{u})] u64"),
                 None => "u64".to_string(),
             };
-            defs.push(format!("#[metrics(value)]\npub struct {type_name}({inner});\n"));
+            defs.push(format!("#[metrics(value)]\n#[derive(Clone)]\npub struct {type_name}({inner});\n"));
             format!("    {id}{type_name},\n")
         }
         FKind::StrEnum {
@@ -465,6 +469,7 @@ fn field_decl(f: &Field, defs: &mut Vec<String>, named: bool) -> String {
             let t = match flatten_wrap(f.val, child) {
                 1 | 2 => format!("Option<{}>", child.type_name),
                 4 => format!("std::sync::Arc<{}>", child.type_name),
+                5 => format!("std::borrow::Cow<'static, <{} as metrique::CloseValue>::Closed>", child.type_name),
                 _ => child.type_name.clone(),
             };
             format!("    #[metrics(flatten{})]\n    {id}{t},\n", pfx_attr(prefix))
@@ -492,6 +497,7 @@ fn field_init(f: &Field, named: bool) -> String {
             1 => format!("{id}Some({})", instance(child)),
             2 => format!("{id}None"),
             4 => format!("{id}std::sync::Arc::new({})", instance(child)),
+            5 => format!("{id}std::borrow::Cow::Owned(metrique::CloseValue::close({}))", instance(child)),
             _ => format!("{id}{}", instance(child)),
         },
     }
@@ -547,7 +553,7 @@ pub fn emit_type(n: &Node, defs: &mut Vec<String>) {
         for f in &n.fields {
             body.push_str(&field_decl(f, defs, true));
         }
-        defs.push(format!("{head}\npub struct {} {{\n{body}}}\n", n.type_name));
+        defs.push(format!("{head}\n#[derive(Clone)]\npub struct {} {{\n{body}}}\n", n.type_name));
     } else {
         for v in &n.variants {
             if let Some(name) = &v.name {
@@ -576,7 +582,7 @@ pub fn emit_type(n: &Node, defs: &mut Vec<String>) {
                 }
             }
         }
-        defs.push(format!("{head}\npub enum {} {{\n{body}}}\n", n.type_name));
+        defs.push(format!("{head}\n#[derive(Clone)]\npub enum {} {{\n{body}}}\n", n.type_name));
     }
 }
 
@@ -1040,6 +1046,7 @@ pub fn features(n: &Node, depth: usize, acc: &mut Vec<&'static str>, styles: &mu
                         1 => acc.push("flatten-option-some"),
                         2 => acc.push("flatten-option-none"),
                         4 => acc.push("flatten-arc"),
+                        5 => acc.push("flatten-cow-of-closed-entry"),
                         _ => {}
                     }
                     let add = match prefix {
